@@ -57,6 +57,12 @@ fn refused(mut c: HxCfg) -> HxCfg {
     c
 }
 
+/// scripts as transitions: a well-formed one, and one that fails after four commands have been applied
+fn scripted(mut c: HxCfg) -> HxCfg {
+    c.scripts = vec![0, 1];
+    c
+}
+
 fn swaps(mut c: HxCfg) -> HxCfg {
     c.clone_swap = true;
     c.reload_swap = true;
@@ -147,7 +153,7 @@ fn seeded5(prop: &'static str, name: &str, d: usize) -> HxCfg {
 fn gc_plan(prop: &'static str, tier: &str) -> Vec<HxCfg> {
     if quick(tier) {
         vec![
-            drain(refused(all_ops(a3(prop, "3 ids, all ops, refused merges")))),
+            drain(scripted(refused(all_ops(a3(prop, "3 ids, all ops, refused merges, scripts"))))),
             drain(depth(a4(prop, "4 ids"), 7)),
             drain(depth(swaps(a4(prop, "4 ids with clone- and reload-swaps")), 6)),
             drain(depth(a5(prop, "ids 1..4 in 5 slots"), 6)),
@@ -160,7 +166,8 @@ fn gc_plan(prop: &'static str, tier: &str) -> Vec<HxCfg> {
         ]
     } else {
         vec![
-            wall(drain(refused(all_ops(a3(prop, "3 ids, all ops, refused merges")))), 300),
+            wall(drain(scripted(refused(all_ops(a3(prop, "3 ids, all ops, refused merges, scripts"))))), 300),
+            wall(drain(depth(scripted(swaps(a4(prop, "4 ids, swaps, scripts"))), 8)), 600),
             wall(drain(all_ops(a3x(prop, "3 ids, 2 labels, 2 data, all ops"))), 1200),
             wall(drain(a4(prop, "4 ids")), 1200),
             wall(drain(depth(all_ops(a4(prop, "4 ids, all ops")), 10)), 900),
@@ -332,6 +339,21 @@ pub fn hx_plan(prop: &'static str, tier: &str) -> Vec<HxCfg> {
                 ]
             }
         }
+        "C14" => {
+            // scripts deployed in the middle of histories: onto graphs with groups, unread data,
+            // recycled slots; a failing script is followed by every continuation
+            if quick(tier) {
+                vec![drain(scripted(all_ops(a3(prop, "3 ids, all ops, scripts")))), drain(depth(scripted(a4(prop, "4 ids, scripts")), 5)), drain(depth(scripted(seeded5(prop, "5 ids from seeds, scripts", 2)), 2))]
+            } else {
+                vec![
+                    wall(drain(scripted(all_ops(a3(prop, "3 ids, all ops, scripts")))), 600),
+                    wall(drain(depth(scripted(all_ops(a3x(prop, "3 ids, 2 labels, 2 data, all ops, scripts"))), 9)), 900),
+                    wall(drain(depth(scripted(swaps(a4(prop, "4 ids, swaps, scripts"))), 8)), 900),
+                    wall(drain(depth(scripted(seeded5(prop, "5 ids from seeds, scripts", 4)), 4)), 600),
+                    wall(drain(depth(scripted(a256(prop, "ids 0,5,254,255 in 256 slots, Sodg<16>, scripts")), 5)), 600),
+                ]
+            }
+        }
         "C19" => {
             let l = |mut c: HxCfg, cfgs: &[(usize, usize)], rerun: usize| {
                 c.probes.lockstep = cfgs.to_vec();
@@ -373,6 +395,7 @@ fn required_counters(prop: &str) -> Vec<&'static str> {
         "C04" => vec!["readd_of_collected_id_that_had_edges", "readd_of_collected_id_that_had_data", "add_of_grouped_present_vertex", "add_next_calls"],
         "C05" => vec!["next_id_calls", "add_next_calls", "model_collections", "clone_swaps", "merges"],
         "C06" => vec!["model_collections"],
+        "C14" => vec!["scripts_deployed", "scripts_failing_after_four_commands", "model_collections"],
         "C08" => vec!["reload_swaps", "reloads_compared", "reload_probe_with_unread_in_group", "reload_probe_with_taken_data", "reload_probe_with_heap_data", "reload_with_2plus_groups", "reload_with_nonzero_allocator"],
         "C09" => vec!["cut_files_loaded", "distinct_images_cut"],
         "C10" => vec!["clone_swaps", "clone_futures_compared", "clone_independence_checks"],
@@ -558,6 +581,30 @@ pub fn run_c09(tier: &str) -> Outcome {
     o
 }
 
+/// C14: PROGGEN (texts against their direct calls, on a fresh graph) + scripts as transitions of HX
+/// (deployed in the middle of histories, failing ones followed by every continuation).
+pub fn run_c14(tier: &str) -> Outcome {
+    let t0 = Instant::now();
+    let mut o = crate::gen::proggen::run_c14(tier);
+    let h = run_hx_prop("C14", tier);
+    if let serde_json::Value::Object(m) = &mut o.coverage {
+        let hx_states = h.coverage["states"].as_u64().unwrap_or(0);
+        let hx_tr = h.coverage["transitions"].as_u64().unwrap_or(0);
+        let e = m["evaluations"].as_u64().unwrap_or(0) + hx_tr;
+        let d = m["distinct_nontrivial"].as_u64().unwrap_or(0) + hx_states;
+        m.insert("evaluations".into(), json!(e));
+        m.insert("distinct_nontrivial".into(), json!(d));
+        let rule = format!("{} PLUS scripts as transitions of the history explorer (HX): a well-formed 4-command script and one whose fifth command is malformed, for every ordered pair of ids, deployed in every state of the explorations listed under hx.runs (graphs with groups, unread data, recycled slots; after clones, reloads, merges), in lock-step with the reference model, which applies the four commands in both cases; every continuation is explored, so what a failing script leaves behind is followed. evaluations = texts + HX transitions; distinct_nontrivial = texts with a settled class + distinct HX states", m["rule"].as_str().unwrap_or(""));
+        m.insert("rule".into(), json!(rule));
+        m.insert("hx".into(), h.coverage.clone());
+    }
+    o.failure_total += h.failure_total;
+    o.failures.extend(h.failures);
+    o.machinery.extend(h.machinery);
+    o.wall_s = t0.elapsed().as_secs_f64();
+    o
+}
+
 /// C19: HX lock-step + the same comparison on every small digraph (GRAPHGEN).
 pub fn run_c19(tier: &str) -> Outcome {
     let t0 = Instant::now();
@@ -593,7 +640,7 @@ pub fn run(prop: &str, tier: &str) -> Option<Outcome> {
         "C13" => return Some(run_hx_plus_graphs("C13", tier)),
         "C18" => return Some(run_hx_plus_graphs("C18", tier)),
         "C20" => return Some(run_hx_plus_graphs("C20", tier)),
-        "C14" => return Some(crate::gen::proggen::run_c14(tier)),
+        "C14" => return Some(run_c14(tier)),
         "C15" => return Some(crate::gen::hexgen::run_c15(tier)),
         "C16" => return Some(crate::gen::hexgen::run_c16(tier)),
         "C17" => return Some(crate::gen::labelgen::run_c17(tier)),
